@@ -430,6 +430,7 @@ func runC12(r *Report) {
 	// ---- R4
 	c13R1(r, "R4")
 	_ = types.Typ
+	c12Exposure(r)
 }
 
 // c12LengthExact: the branch (cond, pol) establishes that the block length L = len(data) is exact for block i = index of
@@ -621,4 +622,80 @@ func c12LengthExact(p *Prog, infoF *types.Var, index, data ssa.Value, cond ssa.V
 		gs = guardsOf(ci.Block())
 	}
 	return exact(e, gs, 0)
+}
+
+// c12Exposure: Torrent.Info doubles as the assembly buffer of a magnet download: it is allocated at the size a peer
+// announced and filled block by block before anything is hashed. Outside package tor it may be looked at — directly, or
+// through tor.WriteTorrent, which re-emits it — only behind InfoComplete() == true. `t.Info != nil` is not that test.
+func c12Exposure(r *Report) {
+	p := r.P
+	infoF := p.Field("tor", "Torrent", "Info")
+	icF := p.Func("tor", "Torrent.InfoComplete")
+	wt := p.Func("tor", "WriteTorrent")
+	if !r.Anchor("R1", "tor.Torrent.Info/InfoComplete/WriteTorrent", infoF != nil && icF != nil && wt != nil) {
+		return
+	}
+	isComplete := func(g Guard) bool {
+		c, ok := g.Cond.(*ssa.Call)
+		return ok && g.Pol && c.Call.StaticCallee() == icF
+	}
+	n := 0
+	for _, acc := range p.fieldAccesses(infoF) {
+		f := enclosingNamed(acc.Fn)
+		if relPkg(f) == "tor" || strings.HasPrefix(relPkg(f), "tor/") {
+			continue
+		}
+		n++
+		r.Fn(f)
+		in := acc.Instr
+		r.Check(p.factHolds(in, isComplete, 0), "R1", fname(acc.Fn)+"/Torrent.Info-only-when-complete", in.Pos(), "Torrent.Info is looked at outside package tor only behind InfoComplete()",
+			"Torrent.Info is accessed in "+fname(acc.Fn)+" on a path not dominated by InfoComplete() == true: before the hash check it is the zero-filled assembly buffer of a size a peer chose, holding whatever blocks peers pushed — a forged dictionary can be served under the torrent's hash")
+	}
+	calls, _ := p.callSitesOf(wt)
+	for _, cs := range calls {
+		f := enclosingNamed(cs.Parent())
+		if relPkg(f) == "tor" {
+			continue
+		}
+		n++
+		r.Fn(f)
+		in := cs.(ssa.Instruction)
+		r.Check(p.factHolds(in, isComplete, 0), "R1", fname(cs.Parent())+"/WriteTorrent-only-when-complete", cs.Pos(), "the .torrent is re-emitted only behind InfoComplete()",
+			"tor.WriteTorrent is called from "+fname(cs.Parent())+" on a path not dominated by InfoComplete() == true: it re-emits Torrent.Info, which before the hash check is the assembly buffer that peers fill — the web interface would serve unauthenticated (forged) metadata under the torrent's hash")
+	}
+	r.Sentinel("R1.exposure", n, 1)
+	// the votes for the metadata size only grow: a size that honest peers voted for must stay eligible however many
+	// forged assemblies fail (metadataGuess ignores sizes whose count is not positive)
+	votes := p.Field("tor", "Torrent", "infoSizeVotes")
+	if r.Anchor("R3", "tor.Torrent.infoSizeVotes", votes != nil) {
+		nV := 0
+		for _, f := range p.SrcFuncs() {
+			if relPkg(f) != "tor" {
+				continue
+			}
+			allInstrs(f, func(in ssa.Instruction) {
+				mu, ok := in.(*ssa.MapUpdate)
+				if !ok {
+					return
+				}
+				if fv, _ := loadedField(mu.Map); fv != votes {
+					return
+				}
+				nV++
+				r.Fn(f)
+				okInc := false
+				if bo, isB := mu.Value.(*ssa.BinOp); isB && bo.Op == token.ADD {
+					if k, okk := constInt(bo.Y); okk && k > 0 {
+						okInc = true
+					}
+				}
+				if k, okk := constInt(mu.Value); okk && k > 0 {
+					okInc = true
+				}
+				r.Check(okInc, "R3", fname(f)+"/size-votes-only-grow", mu.Pos(), "a vote for a metadata size is only ever added",
+					"a vote count for a metadata size is decreased (or overwritten): after enough forged assemblies the size honest peers agree on has a non-positive count, metadataGuess never picks it again, and honest blocks are refused as having an inconsistent size — the download cannot complete after the last corruption")
+			})
+		}
+		r.Sentinel("R3.votes", nV, 1)
+	}
 }
